@@ -532,7 +532,7 @@ class RawAlgorithmsMixIn:
         # print 'xbar_data=',xbar_data
         # print 'ybar_data=',ybar_data
 
-        if isinstance(r, (int, numpy.integer)):
+        if isinstance(r, (int, numpy.integer)) and r >= 0:
 
             if r > 0:
 
